@@ -68,6 +68,14 @@ CHECKS["C20"] = {
             "arbitrary standard sets (needs values).",
     "note": "equation count = data dependence on vns_equation_count/vn_equations, unknown count = dependence on vl_t_terms (followed through locals and call-site arguments)",
 }
+CHECKS["C07"] = {
+    "technique": "static sibling agreement (mini-interpreter over the per-type switch arms of saver and loader, canonical layout expressions) + symbolic sprintf bound over the setter-admitted precision range",
+    "text": "Decides, for all 8 calibration types, that the ordered (key, data offset, extents, no_diagonal) emitter calls of vnacal_save equal the parser calls of "
+            "vnacal_load (packing loops included), that written keys are recognised, required-matrix masks equal the matrices parsed, matrix_names follows "
+            "matrix_id_t, the version line is accepted, and that every number-formatting sprintf fits its stack buffer for every precision the validating setters "
+            "admit (witness precision reported). Does not decide bit-exactness of %a, decimal round-off, property payloads or equality of applied S.",
+    "note": "ID->key map is taken from parse_data's own key switch; precision ranges come from all stores into vc_fprecision/vc_dprecision",
+}
 NOT_APPLICABLE = {
     "C14": "YAML fidelity of arbitrary scalars/keys depends on libyaml's emitter/scanner behaviour on run-time strings; no clause is visible in libvna's source shape (DESIGN.md section 3, C14)",
 }
